@@ -79,6 +79,31 @@ def instr : P Instr := do
   | 29 => do let c ← nat; let i ← nat; let a ← int; let b ← int; pure (.pbcSet c i a b)
   | 30 => do let g ← nat; pure (.normBip g)
   | 31 => do let g ← nat; let u ← int; let v ← int; pure (.bipAddEdge g u v)
+  | 32 => do
+      let g ← simpleG
+      match g with
+      | .ok G => pure (.mkGraph G)
+      | .error _ => failure
+  | 33 => do
+      let g ← diG
+      match g with
+      | .ok G => pure (.mkDiG G)
+      | .error _ => failure
+  | 34 => do let d ← bool; let n ← nat; let es ← natPairs; pure (.mkNx d n es)
+  | 35 => do
+      let c ← int; let g ← nat
+      match c with
+      | 0 => pure (.normalize .simple g)
+      | 1 => pure (.normalize .directed g)
+      | 2 => pure (.normalize .bipartite g)
+      | _ => failure
+  | 36 => do let g ← nat; let u ← int; let v ← int; pure (.gAddEdge g u v)
+  | 37 => do let g ← nat; let c ← optReg; let d ← str; pure (.tseitin g c d)
+  | 38 => do let g ← nat; let fn ← bool; let onto ← bool; let d ← str; pure (.gphp g fn onto d)
+  | 39 => do
+      let p ← nat; let k ← nat; let n ← nat; let m ← nat; let cs ← listOf ints; let ds ← listOf ints; let d ← str
+      pure (.planted p k n m cs ds d)
+  | 40 => do let f ← nat; pure (.liveGroup f)
   | _ => failure
 
 def fmtStr := Cnfgen.Driver.Shuffle.fmtStr
@@ -100,7 +125,8 @@ def fmtReg (s : Store) : Option Nat → String
     match s[a]? with
     | some (.cnf _ _ _ _) =>
       match snap s a with
-      | some S => "F " ++ fmtCNF S.cnf ++ " H " ++ fmtHeader S.header ++ " N " ++ fmtNames S.names
+      | some S => "F " ++ fmtCNF S.cnf ++ " H " ++ fmtHeader S.header ++ " N " ++
+          fmtNames ((liveNames s a).getD S.names)     -- = S.names unless a live group refers to a caller's graph (O1)
       | none => "F ?"
     | some (.opb _ _ _ _) =>
       match osnap s a with
@@ -114,6 +140,12 @@ def fmtReg (s : Store) : Option Nat → String
     | some (.view _ _) => "V " ++ (match viewLen s a with | some n => toString n | none => "?")
     | some (.bipg B) => "G " ++ toString B.l ++ " " ++ toString B.r ++ " " ++ fmtPairs B.edges
     | some (.pbc c) => "C " ++ fmtPBC c
+    | some (.graph G) => "S " ++ toString G.n ++ " " ++ fmtPairs G.edges
+    | some (.dig D) => "D " ++ toString D.n ++ " " ++ fmtPairs D.edges
+    | some (.nx d n es) => "X " ++ (if d then "1 " else "0 ") ++ toString n ++ " " ++ fmtPairs es
+    | some (.bgroup _ _) =>
+      -- the live group object: what it enumerates NOW (it reads the caller's graph)
+      "P " ++ (match bgroupEdges s a with | some es => fmtPairs es | none => "?")
     | _ => "?"
 
 def fmtOut : Option Err → String
